@@ -175,6 +175,53 @@ def download {σ} (P : Peer σ) (c : Chan σ) (idx sub : Nat) (payload : Bytes) 
       | (c3, .error e) => (c3, .error e)
       | (c3, .ok _) => (c3, .ok ())
 
+/-! ### `with open(...) as fp:` — the stream is closed on every exit, also after an exception -/
+
+/-- the stream state a raw write leaves behind when it raises: the segmented path has already
+    flipped the toggle and possibly set `_done` when `request_response` fails -/
+def wsAfterFail (w : WS) (b : Bytes) (e : CErr) : WS :=
+  if e = .runtime ∨ e = .assertion then w
+  else match w.expHeader with
+    | some _ => w
+    | none =>
+      { w with toggle := w.toggle ^^^ TOGGLE_BIT, done := reachesSize w.size (w.pos + min b.length 7) }
+
+/-- `wsFeed`, remembering the stream state at the moment of a failure -/
+def wsFeedS {σ} (P : Peer σ) : Nat → Chan σ → WS → Bytes → List Nat → Chan σ × Except (CErr × WS) WS
+  | 0, c, w, _, _ => (c, .ok w)
+  | fuel + 1, c, w, rem, offers =>
+    if rem.isEmpty then (c, .ok w)
+    else
+      match wsWrite P c w (rem.take (nextOffer offers rem.length)) with
+      | (c', .error e) => (c', .error (e, wsAfterFail w (rem.take (nextOffer offers rem.length)) e))
+      | (c', .ok (w', n)) => wsFeedS P fuel c' w' (rem.drop n) offers.tail
+
+/-- `IOBase.__del__` calls `close()` when a stream object that was never closed is dropped;
+    exceptions are swallowed.  This only happens to a stream whose `__init__` raised after the
+    attributes were set (a stream that reached the `with` block is closed by `__exit__`, and a
+    closed stream is not closed again). -/
+def wsDelClose {σ} (P : Peer σ) (c : Chan σ) (w : WS) : Chan σ := (wsClose P c w).1
+
+/-- `with client.open(idx, sub, "wb", buffering=0, size=…) as fp: <caller writes>`: whatever
+    happens inside, `close()` runs on exit (an exception raised by it replaces the earlier one).
+    A stream whose `__init__` raised (failed segmented initiate) is closed by `__del__`. -/
+def downloadWith {σ} (P : Peer σ) (c : Chan σ) (idx sub : Nat) (payload : Bytes) (sized force : Bool)
+    (offers : List Nat) : Chan σ × Except CErr Unit :=
+  let size := if sized then some payload.length else none
+  match wsInit P c idx sub size force with
+  | (c1, .error e) =>
+    (wsDelClose P c1 { size := size, pos := 0, toggle := 0, expHeader := none, done := false }, .error e)
+  | (c1, .ok w) =>
+    match wsFeedS P (2 * payload.length + offers.length + 2) c1 w payload offers with
+    | (c2, .error (e, wf)) =>
+      (match wsClose P c2 wf with
+       | (c3, .error e2) => (c3, .error e2)
+       | (c3, .ok _) => (c3, .error e))
+    | (c2, .ok w') =>
+      match wsClose P c2 w' with
+      | (c3, .error e) => (c3, .error e)
+      | (c3, .ok _) => (c3, .ok ())
+
 /-! ### ReadableStream -/
 
 structure RS where
